@@ -205,13 +205,21 @@ class DenseOutput(object):
     def find_interval(self, t):
         if self.t_eval is None:
             raise ValueError("No interpolant has been added and time interval is not defined!")
-        return min(deutil.search_bisection(self.t_eval, t), len(self.y_interpolants) - 1)
+        idx = min(deutil.search_bisection(self.t_eval, t), len(self.y_interpolants) - 1)
+        # t_eval holds the END time of each step: a step taken backward in time
+        # covers the times after its entry, not the ones before it
+        if idx > 0 and self.y_interpolants[idx].trange < 0 and self.t_eval[idx] > t:
+            idx = idx - 1
+        return idx
 
     def find_interval_vec(self, t):
         if self.t_eval is None:
             raise ValueError("No interpolant has been added and time interval is not defined!")
         out = deutil.search_bisection_vec(self.t_eval_arr, t)
         out[out > len(self.y_interpolants) - 1] = len(self.y_interpolants) - 1
+        for pos, (idx, _t) in enumerate(zip(out, t)):
+            if idx > 0 and self.y_interpolants[idx].trange < 0 and self.t_eval[idx] > _t:
+                out[pos] = idx - 1
         return out
 
     def __call__(self, t):
